@@ -1,29 +1,47 @@
 import SaModel.Lemmas.C04Schema
 import SaModel.Props.C03
+import SaModel.Lemmas.C04SafeDT
 /-
-C04: C01's `Safe` hypothesis holds for every schema without Dictionary / Union types — in particular for every traced
-schema of an enum-free type when `string_dictionary_encoding` is off.
+C04: C01's `Safe` hypothesis holds for every schema without Dictionary types (unions included) — in particular for every
+traced schema when neither strings (`string_dictionary_encoding`) nor data-less enums (`enums_without_data_as_strings`)
+are dictionary encoded.
 
-  safe_of_noDict : BuiltFor dt nl b → noDictDT dt → Safe b ∧ DefSafe b
-  mapping_noDict : o.stringDictionaryEncoding = false → noEnum t → mappingDT o t = (dt, nb, md) → noDictDT dt
+  safe_of_noDict   : BuiltFor dt nl b → noDictDT dt → Safe b ∧ DefSafe b
+  mapping_noDict   : o.stringDictionaryEncoding = false → noEnum t → mappingDT o t = (dt, nb, md) → noDictDT dt
+  mapping_noDictE  : o.stringDictionaryEncoding = false → o.enumsWithoutDataAsStrings = false →
+                     mappingDT o t = (dt, nb, md) → noDictDT dt                      (every type, enums included)
+  safeDT_of_noDict : noDictDT dt → safeDT dt n ∧ defSafeDT dt n md   (the decidable condition of Lemmas/C04SafeDT.lean)
+  safe_of_traced / safe_of_tracedE / safe_of_traced_schema : `Safe root0` for traced schemas
 -/
 namespace SaModel.Roundtrip
 open SaModel SaModel.Spec SaModel.Build SaModel.Lemmas.C03
 
 mutual
 def noDictDT : DataType → Bool
-  | .dictionary _ _ | .union _ _ | .runEndEncoded _ _ => false
+  | .dictionary _ _ | .runEndEncoded _ _ => false
   | .list f | .largeList f | .fixedSizeList f _ | .map f _ => noDictF f
   | .struct fs => noDictFs fs
+  | .union ufs _ => noDictUs ufs
   | _ => true
 def noDictF : Field → Bool
   | .mk _ dt _ _ => noDictDT dt
 def noDictFs : Fields → Bool
   | .nil => true
   | .cons f r => noDictF f && noDictFs r
+def noDictUs : UFields → Bool
+  | .nil => true
+  | .cons _ f r => noDictF f && noDictUs r
 end
 
 theorem noDictF_dt (f : Field) : noDictF f = noDictDT f.dataType := by cases f; simp [noDictF, Field.dataType]
+
+/-- `DefSafe` of every child gives `DefSafe` of the child `serialize_default` delegates to -/
+theorem defSafeFirst_of_defSafeL : ∀ (bl : BL), DefSafeL bl → DefSafeFirst bl
+  | .nil, _ => by simp [DefSafeFirst]
+  | .cons b _ r, h => by
+    simp only [DefSafeL] at h
+    simp only [DefSafeFirst]
+    exact ⟨fun _ => defSafeFirst_of_defSafeL r h.2, fun _ => h.1⟩
 
 mutual
 theorem safe_of_noDict : ∀ (b : B) (dt : DataType) (nl : Bool), BuiltFor dt nl b → noDictDT dt = true → Safe b ∧ DefSafe b
@@ -60,8 +78,10 @@ theorem safe_of_noDict : ∀ (b : B) (dt : DataType) (nl : Bool), BuiltFor dt nl
     simp [noDictDT] at hn
   | .union _ fs _ _ _, dt, nl, hb, hn => by
     simp only [BuiltFor] at hb
-    obtain ⟨ufs, mode, rfl, _⟩ := hb
-    simp [noDictDT] at hn
+    obtain ⟨ufs, mode, rfl, hu⟩ := hb
+    have ih := safeU_of_noDict fs ufs 0 hu (by simpa [noDictDT] using hn)
+    simp only [Safe, DefSafe]
+    exact ⟨ih.1, defSafeFirst_of_defSafeL fs ih.2⟩
 theorem safeL_of_noDict : ∀ (bl : BL) (fs : Fields), BuiltForL fs bl → noDictFs fs = true → SafeL bl ∧ DefSafeL bl
   | .nil, _, _, _ => by simp [SafeL, DefSafeL]
   | .cons b m r, .nil, hb, _ => by simp [BuiltForL] at hb
@@ -70,6 +90,16 @@ theorem safeL_of_noDict : ∀ (bl : BL) (fs : Fields), BuiltForL fs bl → noDic
     simp only [noDictFs, Bool.and_eq_true] at hn
     have ih1 := safe_of_noDict b _ _ hb.2.1 (by rw [← noDictF_dt]; exact hn.1)
     have ih2 := safeL_of_noDict r fr hb.2.2 hn.2
+    simp [SafeL, DefSafeL, ih1.1, ih1.2, ih2.1, ih2.2]
+theorem safeU_of_noDict : ∀ (bl : BL) (ufs : UFields) (k : Nat), BuiltForU ufs bl k → noDictUs ufs = true →
+    SafeL bl ∧ DefSafeL bl
+  | .nil, _, _, _, _ => by simp [SafeL, DefSafeL]
+  | .cons b m r, .nil, _, hb, _ => by simp [BuiltForU] at hb
+  | .cons b m r, .cons t f fr, k, hb, hn => by
+    simp only [BuiltForU] at hb
+    simp only [noDictUs, Bool.and_eq_true] at hn
+    have ih1 := safe_of_noDict b _ _ hb.2.2.1 (by rw [← noDictF_dt]; exact hn.1)
+    have ih2 := safeU_of_noDict r fr (k + 1) hb.2.2.2 hn.2
     simp [SafeL, DefSafeL, ih1.1, ih1.2, ih2.1, ih2.2]
 end
 
@@ -141,5 +171,142 @@ theorem safe_of_traced (o : TraceOpts) (hd : o.stringDictionaryEncoding = false)
     rw [hfields]
     exact ofList_toList' _
   exact (safe_of_noDict root0 _ _ hb (by rw [hofl]; simpa [noDictDT] using mappingFields_noDict o hd fs hn)).1
+
+/-! ### every type (enums included) when neither strings nor data-less enums are dictionary encoded -/
+
+mutual
+theorem mapping_noDictE (o : TraceOpts) (hd : o.stringDictionaryEncoding = false) (he : o.enumsWithoutDataAsStrings = false) :
+    ∀ (t : Ty) (dt : DataType) (nb : Bool) (md : Metadata), mappingDT o t = (dt, nb, md) → noDictDT dt = true
+  | .prim p, dt, nb, md, hm => by
+    simp only [mappingDT, Prod.mk.injEq] at hm; obtain ⟨rfl, rfl, rfl⟩ := hm; exact noDict_prim o hd p
+  | .unit, dt, nb, md, hm | .unitStruct _, dt, nb, md, hm => by
+    simp only [mappingDT, Prod.mk.injEq] at hm; obtain ⟨rfl, rfl, rfl⟩ := hm; rfl
+  | .option t, dt, nb, md, hm => by
+    rcases hm' : mappingDT o t with ⟨dt', nb', md'⟩
+    simp only [mappingDT, hm', Prod.mk.injEq] at hm; obtain ⟨rfl, rfl, rfl⟩ := hm
+    exact mapping_noDictE o hd he t _ _ _ hm'
+  | .newtype _ t, dt, nb, md, hm => by
+    simp only [mappingDT] at hm
+    exact mapping_noDictE o hd he t _ _ _ hm
+  | .vec t, dt, nb, md, hm => by
+    rcases hm' : mappingDT o t with ⟨dt', nb', md'⟩
+    simp only [mappingDT, hm', Prod.mk.injEq] at hm; obtain ⟨rfl, rfl, rfl⟩ := hm
+    have ih := mapping_noDictE o hd he t _ _ _ hm'
+    split <;> simpa [noDictDT, noDictF] using ih
+  | .tuple ts, dt, nb, md, hm | .tupleStruct _ ts, dt, nb, md, hm => by
+    simp only [mappingDT, Prod.mk.injEq] at hm; obtain ⟨rfl, rfl, rfl⟩ := hm
+    simpa [noDictDT] using mappingPos_noDictE o hd he ts 0
+  | .struct _ fs, dt, nb, md, hm => by
+    simp only [mappingDT, Prod.mk.injEq] at hm; obtain ⟨rfl, rfl, rfl⟩ := hm
+    simpa [noDictDT] using mappingFields_noDictE o hd he fs
+  | .map k v, dt, nb, md, hm => by
+    rcases hk : mappingDT o k with ⟨kdt, knb, kmd⟩
+    rcases hv : mappingDT o v with ⟨vdt, vnb, vmd⟩
+    simp only [mappingDT, hk, hv, Prod.mk.injEq] at hm; obtain ⟨rfl, rfl, rfl⟩ := hm
+    simp [noDictDT, noDictF, noDictFs, mapping_noDictE o hd he k _ _ _ hk, mapping_noDictE o hd he v _ _ _ hv]
+  | .enum _ vars, dt, nb, md, hm => by
+    simp only [mappingDT, he, Bool.and_false, Bool.false_eq_true, if_false, Prod.mk.injEq] at hm
+    obtain ⟨rfl, rfl, rfl⟩ := hm
+    simpa [noDictDT] using mappingVariants_noDictE o hd he vars 0
+theorem mappingPos_noDictE (o : TraceOpts) (hd : o.stringDictionaryEncoding = false) (he : o.enumsWithoutDataAsStrings = false) :
+    ∀ (ts : Tys) (i : Nat), noDictFs (mappingPos o i ts) = true
+  | .nil, _ => rfl
+  | .cons t r, i => by
+    rcases hm : mappingDT o t with ⟨dt, nb, md⟩
+    simp [mappingPos, hm, noDictFs, noDictF, mapping_noDictE o hd he t _ _ _ hm, mappingPos_noDictE o hd he r (i + 1)]
+theorem mappingFields_noDictE (o : TraceOpts) (hd : o.stringDictionaryEncoding = false) (he : o.enumsWithoutDataAsStrings = false) :
+    ∀ (fs : TFields), noDictFs (mappingFields o fs) = true
+  | .nil => rfl
+  | .cons n s t r => by
+    rcases hm : mappingDT o t with ⟨dt, nb, md⟩
+    simp [mappingFields, hm, noDictFs, noDictF, mapping_noDictE o hd he t _ _ _ hm, mappingFields_noDictE o hd he r]
+theorem mappingVariants_noDictE (o : TraceOpts) (hd : o.stringDictionaryEncoding = false) (he : o.enumsWithoutDataAsStrings = false) :
+    ∀ (vs : Variants) (i : Nat), noDictUs (mappingVariants o i vs) = true
+  | .nil, _ => rfl
+  | .cons vn .unit r, i => by
+    simp [mappingVariants, noDictUs, noDictF, noDictDT, mappingVariants_noDictE o hd he r (i + 1)]
+  | .cons vn (.newtype t) r, i => by
+    rcases hm : mappingDT o t with ⟨dt, nb, md⟩
+    simp [mappingVariants, hm, noDictUs, noDictF, mapping_noDictE o hd he t _ _ _ hm, mappingVariants_noDictE o hd he r (i + 1)]
+  | .cons vn (.tuple ts) r, i => by
+    simp [mappingVariants, noDictUs, noDictF, noDictDT, mappingPos_noDictE o hd he ts 0, mappingVariants_noDictE o hd he r (i + 1)]
+  | .cons vn (.struct fs) r, i => by
+    simp [mappingVariants, noDictUs, noDictF, noDictDT, mappingFields_noDictE o hd he fs, mappingVariants_noDictE o hd he r (i + 1)]
+end
+
+/-- **`Safe` for every traced schema (enums included) without dictionary encoding** -/
+theorem safe_of_tracedE (o : TraceOpts) (hd : o.stringDictionaryEncoding = false) (he : o.enumsWithoutDataAsStrings = false)
+    (fs : TFields) (fields : List Field) (hfields : fields = (mappingFields o fs).toList) :
+    ∀ root0, newRoot fields = .ok root0 → Safe root0 := by
+  intro root0 h0
+  have hb := Props.C03.newRoot_builtFor fields root0 h0
+  have hofl : Fields.ofList fields = mappingFields o fs := by
+    rw [hfields]
+    exact ofList_toList' _
+  exact (safe_of_noDict root0 _ _ hb (by rw [hofl]; simpa [noDictDT] using mappingFields_noDictE o hd he fs)).1
+
+/-! ### the decidable condition `safeDT` (Lemmas/C04SafeDT.lean) holds for every schema without Dictionary types -/
+
+mutual
+theorem safeDT_of_noDict : ∀ (dt : DataType) (n : Bool) (md : Metadata), noDictDT dt = true →
+    safeDT dt n = true ∧ defSafeDT dt n md = true
+  | .list f, n, md, h | .largeList f, n, md, h => by
+    simp only [noDictDT] at h
+    simp [safeDT, defSafeDT, (safeF_of_noDict f h).1]
+  | .fixedSizeList f _, n, md, h => by
+    simp only [noDictDT] at h
+    simp [safeDT, defSafeDT, (safeF_of_noDict f h).1, (safeF_of_noDict f h).2]
+  | .map f s, n, md, h => by
+    simp only [noDictDT] at h
+    exact ⟨safeDT_map f s n (safeF_of_noDict f h).1, by simp [defSafeDT]⟩
+  | .struct fs, n, md, h => by
+    simp only [noDictDT] at h
+    simp [safeDT, defSafeDT, (safeFs_of_noDict fs h).1, (safeFs_of_noDict fs h).2]
+  | .union ufs _, n, md, h => by
+    simp only [noDictDT] at h
+    simp [safeDT, defSafeDT, (safeUs_of_noDict ufs h).1, (safeUs_of_noDict ufs h).2]
+  | .dictionary _ _, _, _, h => by simp [noDictDT] at h
+  | .runEndEncoded _ _, _, _, h => by simp [noDictDT] at h
+  | .null, _, _, _ | .boolean, _, _, _ | .int8, _, _, _ | .int16, _, _, _ | .int32, _, _, _ | .int64, _, _, _
+  | .uint8, _, _, _ | .uint16, _, _, _ | .uint32, _, _, _ | .uint64, _, _, _
+  | .float16, _, _, _ | .float32, _, _, _ | .float64, _, _, _
+  | .utf8, _, _, _ | .largeUtf8, _, _, _ | .utf8View, _, _, _ | .binary, _, _, _ | .largeBinary, _, _, _
+  | .binaryView, _, _, _ | .fixedSizeBinary _, _, _, _ | .date32, _, _, _ | .date64, _, _, _
+  | .timestamp _ _, _, _, _ | .time32 _, _, _, _ | .time64 _, _, _, _ | .duration _, _, _, _
+  | .interval _, _, _, _ | .decimal128 _ _, _, _, _ => by simp [safeDT, defSafeDT]
+theorem safeF_of_noDict : ∀ (f : Field), noDictF f = true → safeF f = true ∧ defSafeF f = true
+  | .mk _ dt n md, h => by
+    simp only [noDictF] at h
+    simpa [safeF, defSafeF] using safeDT_of_noDict dt n md h
+theorem safeFs_of_noDict : ∀ (fs : Fields), noDictFs fs = true → safeFs fs = true ∧ defSafeFs fs = true
+  | .nil, _ => by simp [safeFs, defSafeFs]
+  | .cons f r, h => by
+    simp only [noDictFs, Bool.and_eq_true] at h
+    simp [safeFs, defSafeFs, safeF_of_noDict f h.1, safeFs_of_noDict r h.2]
+theorem safeUs_of_noDict : ∀ (ufs : UFields), noDictUs ufs = true → safeUs ufs = true ∧ defSafeFirstU ufs = true
+  | .nil, _ => by simp [safeUs, defSafeFirstU]
+  | .cons _ f r, h => by
+    simp only [noDictUs, Bool.and_eq_true] at h
+    have h1 := safeF_of_noDict f h.1
+    have h2 := safeUs_of_noDict r h.2
+    simp only [safeUs, defSafeFirstU, h1.1, h1.2, h2.1, h2.2]
+    simp
+end
+
+/-- **`Safe` for a traced schema from the decidable condition `safeFs`** (any option set; with dictionary-encoded strings
+or enums the condition says: no non-nullable dictionary receives `serialize_default`) -/
+theorem safe_of_traced_schema (o : TraceOpts) (fs : TFields) (hc : coveredFs (mappingFields o fs) = true)
+    (hs : safeFs (mappingFields o fs) = true) (fields : List Field) (hfields : fields = (mappingFields o fs).toList) :
+    ∀ root0, newRoot fields = .ok root0 → Safe root0 := by
+  have hofl : Fields.ofList fields = mappingFields o fs := by
+    rw [hfields]
+    exact ofList_toList' _
+  exact safe_of_schema fields (by rw [← coveredFs_ofList, hofl]; exact hc) (by rw [hofl]; exact hs)
+
+/-- … the coverage side condition is `mappingFields_side` (every type, enums included) -/
+theorem safe_of_traced_safeFs (o : TraceOpts) (fs : TFields)
+    (hs : safeFs (mappingFields o fs) = true) (fields : List Field) (hfields : fields = (mappingFields o fs).toList) :
+    ∀ root0, newRoot fields = .ok root0 → Safe root0 :=
+  safe_of_traced_schema o fs (mappingFields_side o fs).2 hs fields hfields
 
 end SaModel.Roundtrip
